@@ -73,10 +73,36 @@ def _run_seed(sid, pid):
         shutil.rmtree(d, ignore_errors=True)
 
 
+LEAN = {"C12": [("lean/Counting.lean", ["int_mem_Ioc_floor", "card_int_Ioc_real", "systematic_copies", "copies_floor_or_succ"],
+                 "counting integers in a half-open interval = floor difference (the step from the systematic sampler's index formula to the copy counts)")]}
+
+
+def run_lean(pid):
+    """machine-checked mathematical lemmas behind a property's contracts (Lean 4 + Mathlib, offline): the file must
+    elaborate without errors and every theorem must depend on the standard axioms only (no sorryAx)"""
+    import time
+
+    out = []
+    for rel, theorems, what in LEAN.get(pid, []):
+        t0 = time.time()
+        try:
+            r = subprocess.run(["lean", os.path.join(ROOT, rel)], capture_output=True, text=True, timeout=3000, cwd=os.path.join(ROOT, "lean"))
+            txt = r.stdout + r.stderr
+            ok = r.returncode == 0 and "error" not in txt.lower() and "sorryAx" not in txt and all(("'%s' depends on axioms" % t) in txt or ("'%s' does not depend on any axioms" % t) in txt for t in theorems)
+            detail = txt[-800:]
+        except Exception as e:  # lean missing / timeout
+            ok, detail = False, repr(e)
+        out.append({"file": rel, "lemma": what, "theorems": theorems, "back_end": "lean 4 + mathlib", "verdict": "proved" if ok else "unknown", "seconds": round(time.time() - t0, 1), "detail": "" if ok else detail})
+    return out
+
+
 def run(pid):
     """returns dict for the evidence file and a list of printable lines"""
     lines = []
-    res = {"mutants": [], "refactors": [], "native_cross_checks": [], "seeded_changes": []}
+    res = {"mutants": [], "refactors": [], "native_cross_checks": [], "seeded_changes": [], "lean_lemmas": run_lean(pid)}
+    for l in res["lean_lemmas"]:
+        if l["verdict"] != "proved":
+            lines.append(f"UNDECIDED property={pid} lean lemma {l['file']}: {l['detail'][-300:]}")
     import glob
 
     seeds = []
